@@ -964,7 +964,7 @@ Proof. intros H. apply cleanup_trace; auto. reflexivity. Qed.
 Lemma insert_row_perm pk r l : Permutation (insert_row pk r l) (r :: l).
 Proof.
   induction l as [|x l IH]; cbn; [reflexivity|].
-  destruct (string_slice_is_less pk r x); [reflexivity|].
+  destruct (string_slice_is_less pk x r); [|reflexivity].
   rewrite IH. apply perm_swap.
 Qed.
 
@@ -981,20 +981,18 @@ Proof.
   intros Hr Hl Hs. induction Hs as [|x l Hs IH Hx]; cbn.
   - constructor; constructor.
   - inversion Hl as [|? ? Hlx Hll]; subst.
-    destruct (string_slice_is_less pk r x) eqn:E.
-    + constructor; [constructor; auto|]. constructor.
-      * rewrite (ssl_dkey (length r)) in * by auto.
-        apply klt_true_lt in E. apply klt_false_le. rewrite E. discriminate.
-      * rewrite Forall_forall in *. intros y Hy. specialize (Hx y Hy).
-        rewrite (ssl_dkey (length r)) in * by (auto; apply Hll; auto).
-        apply klt_true_lt in E. apply klt_false_le in Hx. apply klt_false_le.
-        intro G. apply kcmp_gt_lt in G.
-        pose proof (kcmp_lt_le_trans _ _ _ E Hx) as L. rewrite (kcmp_antisym) in G. rewrite L in G.
-        discriminate.
+    destruct (string_slice_is_less pk x r) eqn:E.
     + constructor; [apply IH; auto|].
       rewrite Forall_forall in *. intros y Hy.
       apply (Permutation_in _ (insert_row_perm pk r l)) in Hy. destruct Hy as [<-|Hy]; auto.
-  Qed.
+      rewrite (ssl_dkey (length r)) in * by auto.
+      apply klt_true_lt in E. apply klt_false_le. rewrite E. discriminate.
+    + constructor; [constructor; auto|]. constructor; [exact E|].
+      rewrite Forall_forall in *. intros y Hy. specialize (Hx y Hy).
+      rewrite (ssl_dkey (length r)) in * by (auto; apply Hll; auto).
+      apply klt_false_le in E. apply klt_false_le in Hx. apply klt_false_le.
+      eapply kcmp_le_trans; eauto.
+Qed.
 
 Theorem isort_ok ncols : sort_ok ncols isort_rows.
 Proof.
